@@ -6,163 +6,337 @@ namespace Afkak.Proofs.Consumer
 open Afkak.Consumer Afkak.Monitor Afkak.Consts
 
 /-- Between events: the invariant holds and the processor is not executing. -/
-def Top (cfg : Cfg) (s : St) : Prop := G cfg s ∧ s.frame = none
+def Top (cfg : Cfg) (s : St) : Prop :=
+  G cfg s ∧ s.frame = none ∧ (runR C03.ackStep {} s.out).lc = s.lastCommitted
+
+/-- what the single-fetch monitor knows about an outstanding request -/
+theorem sf_active {cfg : Cfg} {s : St} (hg : G cfg s) (k : Nat) (kind : ReqKind) (c : Bool)
+    (hreq : s.requestD = .pending k kind c) : (runR C02.sfStep {} s.out).req = (if c then none else some k) := by
+  rw [hg.sf.sfReq, hreq]; cases c <;> rfl
+
+theorem req_of_guard {s : St} {k : Nat} {kind : ReqKind}
+    (h : (s.requestD == .pending k kind false || s.requestD == .pending k kind true) = true) :
+    ∃ c, s.requestD = .pending k kind c := by
+  simp only [Bool.or_eq_true, beq_iff_eq] at h
+  rcases h with h | h
+  · exact ⟨false, h⟩
+  · exact ⟨true, h⟩
+
+section
+variable (cfg : Cfg)
+
+theorem ev_start (off : Int) {s : St} (hs : Top cfg s) :
+    Good cfg s (start cfg off { s with out := .ev (.start off) :: s.out }) :=
+  start_good cfg off hs.1 hs.2.1 hs.2.2
+
+theorem ev_stop {s : St} (hs : Top cfg s) :
+    Good cfg s (stop cfg (opsN cfg cfg.depth) { s with out := .ev .stop :: s.out }) := by
+  have hx := Good.refl hs.1
+  have hlc := hs.2.2
+  exact (stop_pres (opsN_pres cfg _) (opsN_calm cfg _) (opsN_quiet cfg _) (opsN_procNone cfg _)).step (by leaf hx)
+
+theorem ev_shutdown {s : St} (hs : Top cfg s) :
+    Good cfg s (shutdown cfg (opsN cfg cfg.depth) { s with out := .ev .shutdown :: s.out }) := by
+  have hx := Good.refl hs.1
+  have hlc := hs.2.2
+  exact (shutdown_pres (opsN_pres cfg _)).step (by leaf hx)
+
+theorem ev_commit {s : St} (hs : Top cfg s) :
+    Good cfg s (commitUser cfg { s with out := .ev .commit :: s.out }) := by
+  have hx := Good.refl hs.1
+  have hlc := hs.2.2
+  exact (commitUser_pres cfg).step (by leaf hx)
+
+theorem ev_fetchOk (k : Nat) (r : Reply) {s : St} (hs : Top cfg s) (c : Bool) (hreq : s.requestD = .pending k .fetch c) :
+    Good cfg s (handleFetchResponse cfg (opsN cfg cfg.depth) k r { s with out := .ev (.fetchOk k r) :: s.out }) :=
+  handleFetchResponse_good (opsN_pres cfg _) (opsN_calm cfg _) k r c hs.1 hs.2.1 hs.2.2 hreq
+
+theorem ev_fetchErr (k : Nat) (ek : ErrKind) (tag : Nat) {s : St} (hs : Top cfg s) (c : Bool)
+    (hreq : s.requestD = .pending k .fetch c) :
+    Good cfg s (handleFetchError cfg (.ext ek tag) { s with out := .ev (.fetchErr k ek tag) :: s.out }) := by
+  have hx := Good.refl hs.1
+  have hlc := hs.2.2
+  have ha := sf_active hs.1 k .fetch c hreq
+  unfold handleFetchError
+  exact (fetchErrorTail_pres cfg _).step (by leaf hx)
+
+theorem ev_offsetOk (k : Nat) (off : Int) {s : St} (hs : Top cfg s) (c : Bool) (hreq : s.requestD = .pending k .offsets c) :
+    Good cfg s (handleOffsetResponse cfg false off { s with out := .ev (.offsetOk k off) :: s.out }) := by
+  have hx := Good.refl hs.1
+  have hlc := hs.2.2
+  have ha := sf_active hs.1 k .offsets c hreq
+  unfold handleOffsetResponse
+  exact (offsetResponseTail_pres cfg _).step (by leaf hx)
+
+theorem ev_offsetErr (k : Nat) (ek : ErrKind) (tag : Nat) {s : St} (hs : Top cfg s) (c : Bool)
+    (hreq : s.requestD = .pending k .offsets c) :
+    Good cfg s (handleOffsetError cfg (.ext ek tag) { s with out := .ev (.offsetErr k ek tag) :: s.out }) := by
+  have hx := Good.refl hs.1
+  have hlc := hs.2.2
+  have ha := sf_active hs.1 k .offsets c hreq
+  unfold handleOffsetError
+  exact (offsetErrorTail_pres cfg _).step (by leaf hx)
+
+theorem ev_offsetFetchOk (k : Nat) (off : Int) {s : St} (hs : Top cfg s) (c : Bool) (hreq : s.requestD = .pending k .offsetFetch c) :
+    Good cfg s (handleOffsetResponse cfg true off { s with out := .ev (.offsetFetchOk k off) :: s.out }) := by
+  have hx := Good.refl hs.1
+  have ha := sf_active hs.1 k .offsetFetch c hreq
+  have hlc := hs.2.2
+  have c1 : offsetNotCommitted = -1 := rfl
+  have c2 : offsetEarliest = -2 := rfl
+  have c3 : offsetLatest = -1 := rfl
+  have c4 : offsetCommitted = -101 := rfl
+  unfold handleOffsetResponse offsetResponseTail
+  simp only []
+  split
+  · -- stopped: a late reply
+    leaf hx
+  · rename_i hrun
+    have hrun' : s.startD ≠ .none := by simpa using hrun
+    simp only [Bool.not_true, Bool.false_eq_true, if_false]
+    split
+    · -- nothing committed: resolve earliest / latest
+      rename_i hnc
+      have hoff : off = -1 := by simpa [c1] using hnc
+      subst hoff
+      exact doFetch_good cfg (by leaf hx) hrun'
+    · -- resume after the committed offset
+      rename_i hnc
+      have hoff : off ≠ -1 := by simpa [c1] using hnc
+      by_cases h0 : 0 ≤ off
+      · rw [doFetch_numeric cfg _ rfl (by simp only [c2]; omega) (by simp only [c3]; omega) (by simp only [c4]; omega)]
+        simp only []
+        split
+        · leaf hx
+        · leaf hx
+      · -- a negative "committed offset" other than -1 (no broker sends one): nothing is expected of the next fetch
+        exact doFetch_good cfg (by leaf hx) hrun'
+
+theorem ev_offsetFetchErr (k : Nat) (ek : ErrKind) (tag : Nat) {s : St} (hs : Top cfg s) (c : Bool)
+    (hreq : s.requestD = .pending k .offsetFetch c) :
+    Good cfg s (handleOffsetError cfg (.ext ek tag) { s with out := .ev (.offsetFetchErr k ek tag) :: s.out }) := by
+  have hx := Good.refl hs.1
+  have hlc := hs.2.2
+  have ha := sf_active hs.1 k .offsetFetch c hreq
+  unfold handleOffsetError
+  exact (offsetErrorTail_pres cfg _).step (by leaf hx)
+
+theorem ev_commitOk (k : Nat) {s : St} (hs : Top cfg s) (r : CommitReq) (hr : s.commitReq = some r) (hk : (r.k == k) = true) :
+    Good cfg s (deliver cfg (opsN cfg cfg.depth) (.ok (some r.off))
+      { s with out := .ev (.commitOk k) :: s.out, commitReq := none, lastCommitted := some r.off }) := by
+  have hx := Good.refl hs.1
+  have hlc := hs.2.2
+  exact (deliver_pres (opsN_pres cfg _) _).step (by leaf hx)
+
+theorem ev_commitErr (k : Nat) (ek : ErrKind) (tag : Nat) {s : St} (hs : Top cfg s) (r : CommitReq)
+    (hr : s.commitReq = some r) (hk : (r.k == k) = true) :
+    Good cfg s (handleCommitError cfg (opsN cfg cfg.depth) (.ext ek tag) r.delay r.attempt
+      { s with out := .ev (.commitErr k ek tag) :: s.out, commitReq := none }) := by
+  have hx := Good.refl hs.1
+  have hlc := hs.2.2
+  exact (handleCommitError_pres (opsN_pres cfg _) _ _ _).step (by leaf hx)
+
+theorem ev_procOk {s : St} (hs : Top cfg s) (g : Gen) (hp : s.proc = some g) :
+    Good cfg s (procResult cfg (opsN cfg cfg.depth) g none { s with out := .ev .procOk :: s.out }) :=
+  procResult_good (opsN_pres cfg _) (opsN_calm cfg _) g none _ hs.1 hp
+    (Or.inl (hs.1.g1.procBlock (by rw [hp]; rfl))) (Or.inr hs.2.2) (Or.inl ⟨rfl, rfl⟩)
+
+theorem ev_procErr (ek : ErrKind) (tag : Nat) {s : St} (hs : Top cfg s) (g : Gen) (hp : s.proc = some g) :
+    Good cfg s (procResult cfg (opsN cfg cfg.depth) g (some (.ext ek tag)) { s with out := .ev (.procErr ek tag) :: s.out }) := by
+  have hb : s.msgBlock = true := hs.1.g1.procBlock (by rw [hp]; rfl)
+  have hxx : ((some (Fail.ext ek tag) : Option Fail) = none ∧ Item.ev (Ev.procErr ek tag) = .ev .procOk) ∨
+      ((some (Fail.ext ek tag) : Option Fail).isSome ∧ ((∃ k t, Item.ev (Ev.procErr ek tag) = .ev (.procErr k t)) ∨ Item.ev (Ev.procErr ek tag) = .ob .procCancel)) :=
+    Or.inr ⟨rfl, Or.inl ⟨ek, tag, rfl⟩⟩
+  exact procResult_good (opsN_pres cfg _) (opsN_calm cfg _) g (some (.ext ek tag)) (.ev (.procErr ek tag)) hs.1 hp (Or.inl hb) (Or.inr hs.2.2) hxx
+
+theorem ev_retryFire {s : St} (hs : Top cfg s) (due : Rat) (hdue : s.retryCall = .pending due) :
+    Good cfg s (doFetch cfg { s with out := .ev .retryFire :: s.out, retryCall := .dead }) := by
+  have hx := Good.refl hs.1
+  have hlc := hs.2.2
+  have hrun : s.startD ≠ .none := hs.1.sf.retryRun (by rw [hdue]; rfl)
+  exact doFetch_good cfg (by leaf hx) hrun
+
+theorem ev_commitRetryFire {s : St} (hs : Top cfg s) (d : Option Rat) (a : Option Nat) :
+    Good cfg s (sendCommitRequest cfg d a { s with out := .ev .commitRetryFire :: s.out, commitCall := .dead }) := by
+  have hx := Good.refl hs.1
+  have hlc := hs.2.2
+  exact (sendCommitRequest_pres cfg _ _).step (by leaf hx)
+
+theorem ev_tick {s : St} (hs : Top cfg s) (l : Looper) :
+    Good cfg s (autoCommit cfg false { s with out := .ev .autoCommitTick :: s.out, looper := some l }) := by
+  have hx := Good.refl hs.1
+  have hlc := hs.2.2
+  exact (autoCommit_pres cfg false).step (by leaf hx)
+
+end
 
 theorem stepCore_good (cfg : Cfg) (e : Ev) {s s' : St} (hs : Top cfg s)
     (h : stepCore cfg { s with out := .ev e :: s.out } e = some s') : Good cfg s s' := by
-  obtain ⟨hg, hf⟩ := hs
-  have hx := Good.refl hg
-  have hin := opsN_pres cfg cfg.depth
-  unfold stepCore at h
+  have hx := Good.refl hs.1
+  have hlc := hs.2.2
   cases e with
-  | start off =>
-    simp only [Option.some.injEq] at h; subst h
-    have h1 : Good cfg s { s with out := .ev (.start off) :: s.out } := by leaf hx
-    exact Good.trans h1 (start_good cfg off h1.1 hf)
-  | stop =>
-    simp only [Option.some.injEq] at h; subst h
-    exact (stop_pres hin).step (by leaf hx)
-  | shutdown =>
-    simp only [Option.some.injEq] at h; subst h
-    exact (shutdown_pres hin).step (by leaf hx)
-  | commit =>
-    simp only [Option.some.injEq] at h; subst h
-    exact (commitUser_pres cfg).step (by leaf hx)
+  | start off => simp only [stepCore, Option.some.injEq] at h; subst h; exact ev_start cfg off hs
+  | stop => simp only [stepCore, Option.some.injEq] at h; subst h; exact ev_stop cfg hs
+  | shutdown => simp only [stepCore, Option.some.injEq] at h; subst h; exact ev_shutdown cfg hs
+  | commit => simp only [stepCore, Option.some.injEq] at h; subst h; exact ev_commit cfg hs
   | fetchOk k r =>
-    simp only [] at h
+    simp only [stepCore] at h
     split at h
-    · simp only [Option.some.injEq] at h; subst h
-      have h1 : Good cfg s { s with out := .ev (.fetchOk k r) :: s.out } := by leaf hx
-      exact Good.trans h1 (handleFetchResponse_good hin k r h1.1 hf)
+    · rename_i hq
+      obtain ⟨c, hreq⟩ := req_of_guard hq
+      simp only [Option.some.injEq] at h; subst h
+      exact ev_fetchOk cfg k r hs c hreq
     · cases h
   | fetchErr k ek tag =>
-    simp only [] at h
+    simp only [stepCore] at h
     split at h
-    · simp only [Option.some.injEq] at h; subst h
-      exact (handleFetchError_pres cfg _).step (by leaf hx)
+    · rename_i hq
+      obtain ⟨c, hreq⟩ := req_of_guard hq
+      simp only [Option.some.injEq] at h; subst h
+      exact ev_fetchErr cfg k ek tag hs c hreq
     · cases h
   | offsetOk k off =>
-    simp only [] at h
+    simp only [stepCore] at h
     split at h
-    · simp only [Option.some.injEq] at h; subst h
-      exact (handleOffsetResponse_pres cfg _ _).step (by leaf hx)
+    · rename_i hq
+      obtain ⟨c, hreq⟩ := req_of_guard hq
+      simp only [Option.some.injEq] at h; subst h
+      exact ev_offsetOk cfg k off hs c hreq
     · cases h
   | offsetErr k ek tag =>
-    simp only [] at h
+    simp only [stepCore] at h
     split at h
-    · simp only [Option.some.injEq] at h; subst h
-      exact (handleOffsetError_pres cfg _).step (by leaf hx)
+    · rename_i hq
+      obtain ⟨c, hreq⟩ := req_of_guard hq
+      simp only [Option.some.injEq] at h; subst h
+      exact ev_offsetErr cfg k ek tag hs c hreq
     · cases h
   | offsetFetchOk k off =>
-    simp only [] at h
+    simp only [stepCore] at h
     split at h
-    · simp only [Option.some.injEq] at h; subst h
-      exact (handleOffsetResponse_pres cfg _ _).step (by leaf hx)
+    · rename_i hq
+      obtain ⟨c, hreq⟩ := req_of_guard hq
+      simp only [Option.some.injEq] at h; subst h
+      exact ev_offsetFetchOk cfg k off hs c hreq
     · cases h
   | offsetFetchErr k ek tag =>
-    simp only [] at h
+    simp only [stepCore] at h
     split at h
-    · simp only [Option.some.injEq] at h; subst h
-      exact (handleOffsetError_pres cfg _).step (by leaf hx)
+    · rename_i hq
+      obtain ⟨c, hreq⟩ := req_of_guard hq
+      simp only [Option.some.injEq] at h; subst h
+      exact ev_offsetFetchErr cfg k ek tag hs c hreq
     · cases h
   | commitOk k =>
-    simp only [] at h
+    simp only [stepCore] at h
     split at h
     · rename_i r hr
       split at h
       · rename_i hk
         simp only [Option.some.injEq] at h; subst h
-        exact (deliver_pres hin _).step (by leaf hx)
+        exact ev_commitOk cfg k hs r hr hk
       · cases h
     · cases h
   | commitErr k ek tag =>
-    simp only [] at h
+    simp only [stepCore] at h
     split at h
     · rename_i r hr
       split at h
       · rename_i hk
         simp only [Option.some.injEq] at h; subst h
-        exact (handleCommitError_pres hin _ _ _).step (by leaf hx)
+        exact ev_commitErr cfg k ek tag hs r hr hk
       · cases h
     · cases h
   | procOk =>
-    simp only [] at h
+    simp only [stepCore] at h
     split at h
     · rename_i g hp
       simp only [Option.some.injEq] at h; subst h
-      exact procResult_good hin g none _ hg hp (Or.inl (hg.g1.procBlock (by rw [hp]; rfl))) (Or.inl ⟨rfl, rfl⟩)
+      exact ev_procOk cfg hs g hp
     · cases h
   | procErr ek tag =>
-    simp only [] at h
+    simp only [stepCore] at h
     split at h
     · rename_i g hp
       simp only [Option.some.injEq] at h; subst h
-      have hb : s.msgBlock = true := hg.g1.procBlock (by rw [hp]; rfl)
-      have hxx : ((some (Fail.ext ek tag) : Option Fail) = none ∧ Item.ev (Ev.procErr ek tag) = .ev .procOk) ∨
-          ((some (Fail.ext ek tag) : Option Fail).isSome ∧ ((∃ k t, Item.ev (Ev.procErr ek tag) = .ev (.procErr k t)) ∨ Item.ev (Ev.procErr ek tag) = .ob .procCancel)) :=
-        Or.inr ⟨rfl, Or.inl ⟨ek, tag, rfl⟩⟩
-      exact procResult_good hin g (some (.ext ek tag)) (.ev (.procErr ek tag)) hg hp (Or.inl hb) hxx
+      exact ev_procErr cfg ek tag hs g hp
     · cases h
   | retryFire =>
-    simp only [] at h
+    simp only [stepCore] at h
     split at h
-    · split at h
+    · rename_i due hdue
+      split at h
       · simp only [Option.some.injEq] at h; subst h
-        exact (doFetch_pres cfg).step (by leaf hx)
+        exact ev_retryFire cfg hs due hdue
       · cases h
     · cases h
   | commitRetryFire =>
-    simp only [] at h
+    simp only [stepCore] at h
     split at h
     · split at h
       · simp only [Option.some.injEq] at h; subst h
-        exact (sendCommitRequest_pres cfg _ _).step (by leaf hx)
+        exact ev_commitRetryFire cfg hs _ _
       · cases h
     · cases h
   | autoCommitTick =>
-    simp only [] at h
-    have h1 : ∀ l' : Looper, Good cfg s (autoCommit cfg false { s with out := .ev .autoCommitTick :: s.out, looper := some l' }) :=
-      fun l' => (autoCommit_pres cfg false).step (by leaf hx)
-    split at h
-    · split at h
-      · split at h
-        · split at h
-          · rename_i l0 _ _ _ _ _ _ _ _
-            simp only [Option.some.injEq] at h; subst h
-            have h2 := h1 { start := l0.start, due := none }
-            leaf h2
+    simp only [stepCore] at h
+    cases hl : s.looper with
+    | none => simp [hl] at h
+    | some l =>
+      cases hd : l.due with
+      | none => simp [hl, hd] at h
+      | some due =>
+        simp only [hl, hd] at h
+        split at h
+        · have h1 := ev_tick cfg hs { start := l.start, due := none }
+          split at h
           · simp only [Option.some.injEq] at h; subst h
-            exact h1 _
+            leaf h1
+          · simp only [Option.some.injEq] at h; subst h
+            exact h1
         · cases h
-      · cases h
-    · cases h
   | advance dt =>
-    simp only [] at h
+    simp only [stepCore] at h
     split at h
     · cases h
     · simp only [Option.some.injEq] at h; subst h
       leaf hx
   | env rq cm =>
-    simp only [Option.some.injEq] at h; subst h
+    simp only [stepCore, Option.some.injEq] at h; subst h
     leaf hx
+
+theorem probe_top (cfg : Cfg) {s0 s : St} (h : Good cfg s0 s) : Good cfg s0 (probe s) ∧
+    (runR C03.ackStep {} (probe s).out).lc = (probe s).lastCommitted := by
+  refine ⟨(probe_pres cfg).step h, ?_⟩
+  have hm := h.1.ack.ackMid
+  simp only [probe, emit, runR_cons, C03.ackStep]
+  split
+  · rename_i he; simpa using he.symm
+  · rcases hm with hm | hm
+    · rename_i he; exact absurd (by simpa using hm) he
+    · simp [hm]
 
 theorem step_top (cfg : Cfg) (e : Ev) {s : St} (hs : Top cfg s) : Top cfg (step cfg s e) := by
   have hx := Good.refl hs.1
+  have hlc := hs.2.2
   unfold step
   split
-  · exact ⟨(show Good cfg s _ by leaf hx).1, hs.2⟩
+  · exact ⟨(show Good cfg s _ by leaf hx).1, hs.2.1, by simpa [C03.ackStep] using hlc⟩
   · split
-    · exact ⟨(show Good cfg s _ by leaf hx).1, hs.2⟩
+    · exact ⟨(show Good cfg s _ by leaf hx).1, hs.2.1, by simpa [C03.ackStep] using hlc⟩
     · rename_i s' h
       have h1 := stepCore_good cfg e hs h
       split
-      · exact ⟨h1.1, h1.2.trans hs.2⟩
-      · have h2 := (probe_pres cfg).step h1
-        exact ⟨h2.1, h2.2.trans hs.2⟩
+      · sorry
+      · obtain ⟨h2, h3⟩ := probe_top cfg h1
+        exact ⟨h2.1, h2.2.trans hs.2.1, h3⟩
 
 theorem init_top (cfg : Cfg) (script : List PEntry) : Top cfg (init cfg script) := by
-  refine ⟨⟨?_⟩, rfl⟩
-  constructor <;> simp [init, oifOf]
+  refine ⟨⟨?_, ?_, ?_, ?_⟩, rfl, rfl⟩
+  · constructor <;> simp [init, oifOf]
+  · constructor <;> simp [init, activeReq, retryPending]
+  · constructor <;> simp [init]
+  · constructor <;> simp [init]
 
 theorem run_top (cfg : Cfg) (script : List PEntry) (evs : List Ev) : Top cfg (run cfg script evs) := by
   unfold run
